@@ -64,5 +64,8 @@ def check_c10(prop, tier, replay_path):
         mc=[], stats_tag="LSSIM-STATS", sig_ctx=_sig(prop), level="fault_enumeration", max_workers=8,
         what="after a crash / injected I/O error the real log store shows a state LogStore.tla does not allow "
              "(acknowledged save lost, interrupted save partly visible, failed write reported as success)",
-        assumptions=["crash = all data not synced before a chosen file-system operation of a save is dropped (strict MemFS); no torn single write",
+        assumptions=["crash in front of a chosen file-system operation of a save, two kinds: power loss = all data not synced before it is dropped (strict MemFS); "
+                     "process death (one crash in three) = everything written before it survives, nothing after it does (the operating system writes its cache back), "
+                     "in half of these the machine loses power as soon as the reopen has returned (a repair made by the reopen must be durable); no torn single write",
+                     "Tan traces 14, 15 mod 16 of the crash mode use entries of 4-28 KB so that records straddle the 32 KB blocks of the log (a record is then written with several writes)",
                      "I/O errors are injected at KV-store calls of the Pebble-backed store (above Pebble), not inside Pebble or Tan"])
